@@ -76,6 +76,117 @@ theorem page_layout_inv (ps pps : Nat) (crc : Crc) (hps : WF ps) (batches : List
         ∀ p ∈ pages, p.length = ps ∧ ∃ fs k, Frames crc fs ∧ p = fs ++ zeros k :=
   (LInv.logAll pps hps.1 batches).segments
 
+/-! ### Huge records (suite ops `big*`)
+
+  Records of 1 MiB … 128 MiB+1 are written by the harness as runs of one byte (`r<n>x<b>`) with every
+  compression type and read back with `Reader` and `LiveReader`; neither the ops file nor the judge ever
+  holds `n` bytes.  The harness prints for every record it gets back the fingerprint `recFp` (length, byte
+  sum, smallest and largest byte); the judge compares with `Spec.fp`, a closed form.  The theorems below
+  connect that closed form to the byte-list definitions, show the fingerprint loses nothing for a run,
+  and instantiate `wal_roundtrip` for such records. -/
+
+open Prom.Wal.Suite in
+theorem byteSum_replicate (n : Nat) (b : UInt8) : byteSum (List.replicate n b) = n * b.toNat := by
+  have h : ∀ (n a : Nat), (List.replicate n b).foldl (fun a x => a + x.toNat) a = a + n * b.toNat := by
+    intro n
+    induction n with
+    | zero => intro a; simp
+    | succ n ih => intro a; rw [List.replicate_succ, List.foldl_cons, ih, Nat.succ_mul]; omega
+  simpa [byteSum] using h n 0
+
+open Prom.Wal.Suite in
+theorem byteMin_replicate (n : Nat) (b : UInt8) (hn : 0 < n) : byteMin (List.replicate n b) = b.toNat := by
+  have h : ∀ (n a : Nat), (List.replicate (n + 1) b).foldl (fun a x => min a x.toNat) a = min a b.toNat := by
+    intro n
+    induction n with
+    | zero => intro a; simp
+    | succ n ih => intro a; rw [List.replicate_succ, List.foldl_cons, ih]; omega
+  obtain ⟨m, rfl⟩ : ∃ m, n = m + 1 := ⟨n - 1, by omega⟩
+  have hb := b.toNat_lt
+  rw [byteMin, h]; omega
+
+open Prom.Wal.Suite in
+theorem byteMax_replicate (n : Nat) (b : UInt8) (hn : 0 < n) : byteMax (List.replicate n b) = b.toNat := by
+  have h : ∀ (n a : Nat), (List.replicate (n + 1) b).foldl (fun a x => max a x.toNat) a = max a b.toNat := by
+    intro n
+    induction n with
+    | zero => intro a; simp
+    | succ n ih => intro a; rw [List.replicate_succ, List.foldl_cons, ih]; omega
+  obtain ⟨m, rfl⟩ : ∃ m, n = m + 1 := ⟨n - 1, by omega⟩
+  rw [byteMax, h]; omega
+
+/-- **Closed form = definition.** What the judge expects for a `biglog` record (`Spec.fp`: for a run of
+    `n ≥ 2^19` copies of `b` the string `n:s(n·b):b:b`, computed without building the record) is the
+    fingerprint `recFp` of the bytes the harness logs for that spec. -/
+theorem huge_fp_closed_form (s : Prom.Wal.Suite.Spec) : s.fp = Prom.Wal.Suite.recFp s.bytes := by
+  cases s with
+  | gen l sd => rfl
+  | run n b =>
+    simp only [Prom.Wal.Suite.Spec.fp, Prom.Wal.Suite.Spec.bytes, Prom.Wal.Suite.recFp, List.length_replicate]
+    split
+    · rfl
+    · next h =>
+      have hn : 0 < n := by unfold Prom.Wal.Suite.bigThreshold at h; omega
+      rw [byteSum_replicate, byteMin_replicate n b hn, byteMax_replicate n b hn]
+
+open Prom.Wal.Suite in
+theorem byteMin_le_mem (r : Bytes) (x : UInt8) (hx : x ∈ r) : byteMin r ≤ x.toNat := by
+  have h : ∀ (r : Bytes) (a : Nat), r.foldl (fun a x => min a x.toNat) a ≤ a ∧
+      ∀ x ∈ r, r.foldl (fun a x => min a x.toNat) a ≤ x.toNat := by
+    intro r
+    induction r with
+    | nil => intro a; simp
+    | cons y r ih =>
+      intro a
+      rw [List.foldl_cons]
+      have h1 := (ih (min a y.toNat)).1
+      refine ⟨by omega, ?_⟩
+      intro x hx
+      rcases List.mem_cons.mp hx with rfl | hx
+      · omega
+      · exact (ih _).2 x hx
+  exact (h r 255).2 x hx
+
+open Prom.Wal.Suite in
+theorem le_byteMax_mem (r : Bytes) (x : UInt8) (hx : x ∈ r) : x.toNat ≤ byteMax r := by
+  have h : ∀ (r : Bytes) (a : Nat), a ≤ r.foldl (fun a x => max a x.toNat) a ∧
+      ∀ x ∈ r, x.toNat ≤ r.foldl (fun a x => max a x.toNat) a := by
+    intro r
+    induction r with
+    | nil => intro a; simp
+    | cons y r ih =>
+      intro a
+      rw [List.foldl_cons]
+      have h1 := (ih (max a y.toNat)).1
+      refine ⟨by omega, ?_⟩
+      intro x hx
+      rcases List.mem_cons.mp hx with rfl | hx
+      · omega
+      · exact (ih _).2 x hx
+  exact (h r 0).2 x hx
+
+/-- **The fingerprint identifies a run.** A record that comes back with the length `n` and with smallest
+    and largest byte both `b` IS the run of `n` copies of `b`: for the huge records the judge's comparison of
+    fingerprints is a comparison of the records themselves. -/
+theorem huge_fp_identifies_run (r : Bytes) (n : Nat) (b : UInt8) (hl : r.length = n)
+    (hmin : Prom.Wal.Suite.byteMin r = b.toNat) (hmax : Prom.Wal.Suite.byteMax r = b.toNat) :
+    r = List.replicate n b := by
+  rw [List.eq_replicate_iff]
+  refine ⟨hl, fun x hx => ?_⟩
+  have h1 := byteMin_le_mem r x hx
+  have h2 := le_byteMax_mem r x hx
+  exact UInt8.toNat_inj.mp (by omega)
+
+/-- **Round trip with a huge record** (`wal_roundtrip` instantiated): any records `pre`, then `n` copies of
+    `b` for any `n` (128 MiB+1 included), then any records `post`, in three `Log` calls, any page and
+    segment size: read back exactly, no error. -/
+theorem wal_roundtrip_huge (ps pps : Nat) (crc : Crc) (hps : WF ps) (pre post : List Bytes) (n : Nat) (b : UInt8) :
+    readAll ps crc (segments ps (logAll ps pps crc [pre, [List.replicate n b], post])) =
+      (pre ++ List.replicate n b :: post,
+       .eof (segStream ps (segments ps (logAll ps pps crc [pre, [List.replicate n b], post]))).length) := by
+  rw [wal_roundtrip ps pps crc hps]
+  simp
+
 /-! ### LiveReader
 
   The model (`lrReadRecord`, `lrBuild`, `lrNext`, `lrDrain`, `liveRun`) transcribes live_reader.go and is
